@@ -12,6 +12,7 @@ import Apko.Proofs.Lemmas.FSWalkDir
 import Apko.Proofs.Lemmas.FSSymBit
 import Apko.Proofs.Lemmas.TarWalk
 import Apko.Proofs.Lemmas.FSPosixDemo
+import Apko.Proofs.Lemmas.FSPosixSim
 import Apko.Generated.FS
 /-! C17 — the virtual file systems behave like a file system (theorems over `Model/FS.lean`) -/
 namespace Apko.C17
@@ -599,6 +600,56 @@ example : (run (Cfg.impl .tarfs) FS.empty absDemoOps).1 = absDemo ∧ Inv absDem
 theorem resolve_posix_fails_on_dots :
     getNode (Cfg.impl .memfs) dotDemo "l/up".toList ≠ getNode (Cfg.spec .memfs) dotDemo "l/up".toList := by
   decide
+
+/-- **resolve_posix_upto_loop** — the extension to *relative* link targets.  On every path without `.`/`..`
+in every state whose link targets (relative or absolute) are free of `.`/`..`, the lexical resolution of
+memfs/tarfs gives the POSIX answer **or reports `ELOOP`**: it never returns a wrong node and never a wrong
+error other than a premature `ELOOP`.  Reason (`Lemmas/FSPosixRel.lean`, `FSPosixSim.lean`): the path
+Impl looks up for a relative target, `Join(traversed, target)`, has the components
+`traversed ++ parts target` (`parts_linkDest`); walking `traversed` again from the root leads to the
+directory that holds the link because the lookup is deterministic up to its budget (`getL_mono`), but every
+link among `traversed` is followed — and counted, with one nesting level less — a second time, so Impl's
+counter is never below the Spec's (`walk_sim`).  `resolve_posix_rel_early_loop` shows the second
+alternative happens. -/
+theorem resolve_posix_upto_loop :
+  ∀ (b : Backend) (fs : FS) (p : Text),
+    (∀ i : Nat, ∀ cmp ∈ parts (fs.node i).target, cmp ≠ dot ∧ cmp ≠ dotdot) →
+    (∀ cmp ∈ parts p, cmp ≠ dot ∧ cmp ≠ dotdot) →
+    getNode (Cfg.impl b) fs p = getNode (Cfg.spec b) fs p ∨ getNode (Cfg.impl b) fs p = .error .loop :=
+  fun b _ p hnd hp => getNode_upto_loop (ci := Cfg.impl b) (cs := Cfg.spec b) rfl rfl hnd p hp
+
+/-- so whenever memfs/tarfs resolve a dot-free path at all (or fail with anything but `ELOOP`), POSIX
+resolution gives the same answer -/
+theorem resolve_posix_of_no_loop (b : Backend) (fs : FS) (p : Text)
+    (hnd : ∀ i : Nat, ∀ cmp ∈ parts (fs.node i).target, cmp ≠ dot ∧ cmp ≠ dotdot)
+    (hp : ∀ cmp ∈ parts p, cmp ≠ dot ∧ cmp ≠ dotdot) (h : getNode (Cfg.impl b) fs p ≠ .error .loop) :
+    getNode (Cfg.spec b) fs p = getNode (Cfg.impl b) fs p :=
+  ((resolve_posix_upto_loop b fs p hnd hp).resolve_right h).symm
+
+/-- non-vacuity with relative targets met *behind* a link (`l → /d`, in `d` the chain `r → rx → rxx → f`):
+both resolutions of `l/r` reach `f` -/
+example : Inv (relChain 3) ∧
+    (∀ i : Nat, ∀ cmp ∈ parts ((relChain 3).node i).target, cmp ≠ dot ∧ cmp ≠ dotdot) ∧
+    (∀ cmp ∈ parts "l/r".toList, cmp ≠ dot ∧ cmp ≠ dotdot) ∧
+    (∃ i, ((relChain 3).node i).isSymlink = true ∧ isAbs ((relChain 3).node i).target = false) ∧
+    getNode (Cfg.impl .memfs) (relChain 3) "l/r".toList = .ok 6 ∧
+    getNode (Cfg.spec .memfs) (relChain 3) "l/r".toList = .ok 6 :=
+  ⟨inv_of_nodes (by decide) (by decide),
+   forall_node (P := fun n => ∀ cmp ∈ parts n.target, cmp ≠ dot ∧ cmp ≠ dotdot) (by decide) (by decide),
+   by decide, ⟨3, by decide⟩, by decide, by decide⟩
+
+/-- … and the `ELOOP` alternative is real (a deviation of class F17d without any `.`/`..`): with a chain of
+21 relative links behind the link `l`, POSIX follows 22 links and reaches the file; Impl follows `l` again
+for every link of the chain (it would take 42 traversals) and reports `ELOOP` -/
+theorem resolve_posix_rel_early_loop :
+    Inv (relChain 21) ∧
+    (∀ i : Nat, ∀ cmp ∈ parts ((relChain 21).node i).target, cmp ≠ dot ∧ cmp ≠ dotdot) ∧
+    (∀ cmp ∈ parts "l/r".toList, cmp ≠ dot ∧ cmp ≠ dotdot) ∧
+    getNode (Cfg.impl .memfs) (relChain 21) "l/r".toList = .error .loop ∧
+    getNode (Cfg.spec .memfs) (relChain 21) "l/r".toList = .ok 24 := by
+  refine ⟨inv_of_nodes (by decide) (by decide),
+    forall_node (P := fun n => ∀ cmp ∈ parts n.target, cmp ≠ dot ∧ cmp ≠ dotdot) (by decide) (by decide),
+    by decide, by decide, by decide⟩
 
 /-! ### ties to the source (regenerated on every run by `extract/fs.go`) -/
 
